@@ -43,7 +43,9 @@ def new_labels(rng, ax, how=None):
 class C07(Prop):
     id = "C07"
     theorems = ["rxIndex_present", "rxIndex_absent", "rxMask_iff", "reindex_spec", "reindex_labels",
-                "reindex_self_id", "reindex_raise_iff", "reindex_other_axes", "reindex_attrs"]
+                "reindex_self_id", "reindex_raise_iff", "reindex_other_axes", "reindex_attrs", "locateMany_neighbour", "neighbour_exists", "neighbour_unique", "reindex_method_spec", "reindex_method_sorted", "reindex_method_meta",
+                "neighbour_left_present", "neighbour_right_present_next", "neighbour_right_present_last", "neighbour_absent_side_irrelevant", "neighbour_below", "neighbour_beyond",
+                "reindex_like_axes", "reindex_like_spec", "reindex_like_method_spec", "reindex_like_vkind", "reindex_reindex_sub", "reindex_kind"]
     rule = ("arrays of rank 1-3 (sizes 1-4, a share with an empty axis), any axis by name or position, labels int/"
             "float/str stored inc/dec/shuffled; new label sequences subset/superset/disjoint/permuted/repeated/"
             "empty/same/mixed given as list, ndarray or Axis; fills nan/int/float; raise_error; method None/left/"
